@@ -204,6 +204,7 @@ func init() {
 			"documented exception). R-IDLECHECK - every path from one Decode of the read loop to the next passes the call that clears the running flag when nothing is pending. R-BLOCKLOCK has no exception any more: the signal hand-over under the mutex is a demonstrated deadlock (known finding). R-ONEDECODER - the client has exactly one CBOR stream decoder, created in its constructor. NOT decided: liveness under all schedules as such; deadlocks that need reasoning about the peer.",
 		Assumptions: []string{"sync.Cond has no spurious wake-ups (Go semantics)", "the peer behaves correctly (property premise)"},
 		Rules: []func(*Ctx){
+			func(c *Ctx) { c.ruleSigChan("R-SIGCHAN") },
 			func(c *Ctx) { c.ruleOneDecoder("R-ONEDECODER") },
 			func(c *Ctx) { c.ruleIdleCheck("R-IDLECHECK") },
 			func(c *Ctx) { c.ruleAtomic("R-ATOMIC"); c.R.Floor("R-ATOMIC", 4) },
